@@ -11,6 +11,11 @@ SRC = sys.argv[1] if len(sys.argv) > 1 else "/repo/src/lenskit"
 LEAN = os.path.join(ROOT, "lean")
 CASES = [
  ("C01", "data/relationships.py", "        if tbl is None:\n            return None\n\n        return ItemList.from_arrow", "        if not tbl:\n            return None\n\n        return ItemList.from_arrow", "break"),
+ ("C01", "data/vocab.py", "        if num < 0:\n            raise IndexError(\"negative numbers not supported\")\n        return self._index[num]", "        return self._index[num]", "break"),
+ ("C01", "data/vocab.py", "        if num < 0:\n            raise IndexError(\"negative numbers not supported\")\n        return self._index[num]", "        if num <= 0:\n            raise IndexError(\"negative numbers not supported\")\n        return self._index[num]", "break"),
+ ("C01", "data/vocab.py", "        if num < 0:\n            raise IndexError(\"negative numbers not supported\")\n        return self._index[num]", "        if 0 > num:\n            raise IndexError(\"negative numbers not supported\")\n        return self._index[num]", "keep"),
+ ("C01", "data/vocab.py", "        if missing == \"error\" and np.any(nums < 0):\n            raise KeyError()", "        if np.any(nums < 0):\n            raise KeyError()", "break"),
+ ("C01", "data/relationships.py", "        if number is None:\n            number = self.row_vocabulary.number(id, \"none\")", "        if not number:\n            number = self.row_vocabulary.number(id, \"none\")", "break"),
  ("C02", "pipeline/components.py", "    if primary is not None:\n        return primary\n    else:\n        return fallback.get()", "    return primary or fallback.get()", "break"),
  ("C02", "pipeline/components.py", "    if primary is not None:\n        return primary\n    else:\n        return fallback.get()", "    if primary is None:\n        return fallback.get()\n    return primary", "keep"),
  ("C02", "pipeline/runner.py", "                if val is None and required and isinstance(node, InputNode):", "                if val is None and isinstance(node, InputNode):", "break"),
